@@ -155,6 +155,12 @@ func (dht *IpfsDHT) handleFindPeer(ctx context.Context, from peer.ID, pmes *pb.M
 	// possibly an over-allocation but this array is temporary anyways.
 	withAddresses := make([]peer.AddrInfo, 0, len(closestinfos))
 	for _, pi := range closestinfos {
+		if pi.ID == dht.self {
+			// Our own entry (FIND_PEER for ourselves) is an advertisement of our
+			// addresses like a provider record is: only hand out the addresses
+			// this DHT advertises, e.g. no private ones on a public DHT.
+			pi.Addrs = dht.filterAddrs(pi.Addrs)
+		}
 		if len(pi.Addrs) > 0 {
 			withAddresses = append(withAddresses, pi)
 		}
